@@ -1,5 +1,83 @@
-"""name-syntax half of C18 (filled in once the PEG model exists)"""
+"""name-syntax half of C18: the name productions of the real parser vs the model (tie) and vs
+Name / NCName / QName / Nmtoken / PITarget of the recommendations (failing-input search)."""
+import itertools
+from . import lib, pegcorr
+
+# representatives of each character class that matters for names
+REPS = [0x3A, 0x61, 0x41, 0x5F, 0x31, 0x2D, 0x2E, 0xB7, 0x300, 0xE9, 0x2EFF, 0x2FF0, 0x20, 0x78, 0x6D, 0x6C, 0x58, 0x4D, 0x4C,
+        0x203F, 0x37E, 0x10000, 0xF0000, 0x3C]
+PRODS = ['name', 'ncname', 'qname', 'nmtoken', 'pi_target', 'prefixed_name']
+SPEC_KIND = {'name': 'name', 'ncname': 'ncname', 'qname': 'qname', 'nmtoken': 'nmtoken', 'pi_target': 'pi_target'}
+
+def is_name_char_only_start_bad(s, spec_namechar, spec_namestart):
+    return len(s) == 0 or (spec_namechar(s[0]) and not spec_namestart(s[0]))
+
 def check_names(run, okr, okm):
-    pass
+    if not okr:
+        return
+    rng = run.rng
+    strings = [()]
+    maxlen = 3 if run.tier == 'quick' else 4
+    reps = REPS if run.tier == 'quick' else REPS
+    for n in range(1, maxlen + 1):
+        if n <= 2:
+            strings += list(itertools.product(reps, repeat=n))
+        else:
+            allc = list(itertools.product(reps, repeat=n))
+            k = 4000 if run.tier == 'quick' else 40000
+            strings += rng.sample(allc, min(k, len(allc)))
+    # the reserved target in every letter case, with neighbours
+    for w in ['xml', 'XML', 'xMl', 'Xml', 'xm', 'x', 'xmlx', 'xml:a', 'a:xml', 'xml-stylesheet', ':', 'a:', ':a', 'a:b:c', 'a::b', 'a:b', 'a:1', '1:a']:
+        strings.append(tuple(ord(c) for c in w))
+    cases = [(p, list(s), 'names') for p in PRODS for s in strings]
+    rust, model = pegcorr.run_cases(run, 'xml', cases) if okm else (lib.run_bin(lib.rust_bin(), ['prod'], ['xml %s %s' % (p, ','.join(map(str, s)) if s else '-') for p, s, _ in cases], shards=8)[1], None)
+    spec_lines = ['%s %s' % (SPEC_KIND[p], ','.join(map(str, s)) if s else '-') for p, s, _ in cases if p in SPEC_KIND]
+    rc, spec = lib.run_bin(lib.spec_bin('chars'), ['names'], spec_lines, shards=8)
+    # class membership of the first character per the specification (for the D04 classifier)
+    firsts = sorted({s[0] for _, s, _ in cases if s})
+    rc, nc = lib.run_bin(lib.spec_bin('chars'), ['names'], ['nmtoken %d' % c for c in firsts])
+    rc, nsc = lib.run_bin(lib.spec_bin('chars'), ['names'], ['name %d' % c for c in firsts])
+    is_nc = {c: v == '1' for c, v in zip(firsts, nc)}
+    is_nsc = {c: v == '1' for c, v in zip(firsts, nsc)}
+    si = 0
+    bad_model = 0
+    d04 = 0
+    for i, (p, s, _) in enumerate(cases):
+        r = rust[i] if i < len(rust) else 'crash'
+        run.evaluations += 1
+        if s:
+            run.nontrivial.add(('names', p, tuple(s)))
+        accepted = (r == 'ok %d' % len(s))
+        if model is not None:
+            m = model[i] if i < len(model) else 'crash'
+            if m != r:
+                bad_model += 1
+                if bad_model <= 3:
+                    run.tie_breaks.append('names: production %s on %r: implementation %r, model %r' % (p, ''.join(map(chr, s)), r, m))
+        if p in SPEC_KIND:
+            want = spec[si] == '1' if si < len(spec) else None
+            si += 1
+            if want is None or accepted == want:
+                continue
+            known = p in ('name', 'pi_target') and (len(s) == 0 or (is_nc[s[0]] and not is_nsc[s[0]]))
+            if known:
+                d04 += 1
+                continue
+            run.failing_inputs.append({'property': 'C18', 'class': 'names:' + p,
+                'what': 'production %s %s the string %r, which %s %s' % (p, 'accepts' if accepted else 'rejects', ''.join(map(chr, s)),
+                        'is not a' if accepted else 'is a', SPEC_KIND[p]),
+                'production': p, 'string': s, 'implementation': r})
+    if d04:
+        run.known_hits['D04'] = ('production name/pi_target accepts a string whose first character is a NameChar but not a NameStartChar (or the empty string)', d04)
+    run.count('names:cases', len(cases))
+    run.sample({'names_productions': PRODS, 'strings': len(strings), 'example': ''.join(map(chr, strings[len(strings) // 2]))})
+
 def replay_case(d):
-    pass
+    s = d['string']
+    line = 'xml %s %s' % (d['production'], ','.join(map(str, s)) if s else '-')
+    for nm, b, dom in (('implementation', lib.rust_bin(), 'prod'), ('model', lib.model_bin('peg'), 'prod')):
+        rc, out = lib.run_bin(b, [dom], [line])
+        print('%s: %s' % (nm, out))
+    if d['production'] in SPEC_KIND:
+        rc, out = lib.run_bin(lib.spec_bin('chars'), ['names'], ['%s %s' % (SPEC_KIND[d['production']], ','.join(map(str, s)) if s else '-')])
+        print('spec: %s' % out)
